@@ -43,6 +43,8 @@ def cfg_text(rng, idt, marker, rich=None):
         s += "  %s = %s\n" % (k, fmt % v)
     s += '  uniq = "%s"\n' % marker
     s += '\n[defaults]\n  mapping = "m"\n'
+    if not rich:
+        s += "  channel = %d\n" % rng.choice([1, 1, 10, 16])      # required since the default-channel fix (1..16)
     if rich:
         s += "  octave = 1\n  channel = 2\n  velocity = 100\n\n[action_mapping]\n  KEY_ESC = \"panic\"\n\n[open_rgb]\n  white = 0x005500\n"
     s += '\n[[mapping]]\n  name = "m"\n'
@@ -270,6 +272,9 @@ def gen_random(g, n, unpriv_share=0.2):
         idpool = [ZERO, ZERO, x, x, y]       # few identifiers: duplicates inside one directory are common
         populate(g, case, idpool, nmax=rng.choice([2, 4, 6, 9]))
         case["queries"] = std_queries([x, y, z, ZERO], extra_types=k % 7 == 0)
+        if k % 3 == 1 and not case["unpriv"]:
+            case["warm"] = rng.randrange(1, 10 ** 9)       # the same directory was loaded before with other contents (see harness_case)
+            case["tags"].append("warm-reload")
         cases.append(case)
     return cases
 
@@ -359,7 +364,21 @@ def case_ops(case):
 
 def harness_case(case):
     ops, probes = case_ops(case)
-    return {"ops": ops, "unpriv": bool(case["unpriv"]), "probe": probes, "queries": case["queries"]}
+    hc = {"ops": ops, "unpriv": bool(case["unpriv"]), "probe": probes, "queries": case["queries"]}
+    if case.get("warm"):
+        # an earlier load of the same directory saw OTHER contents at the same paths: valid configurations for other devices where
+        # the tree now has anything else, broken text where it now has something valid (see the harness: c12Case.Warm)
+        import random as _r
+        r = _r.Random(case["warm"])
+        warm = []
+        for i, op in enumerate(ops):
+            if op["op"] == "mkdir":
+                warm.append(op)
+            elif op["op"] == "write":
+                other = cfg_text(r, [r.randrange(1, 9), r.randrange(1, 60000), r.randrange(1, 60000), r.randrange(0, 3)], "warm%d" % i, rich=False)
+                warm.append({"op": "write", "path": op["path"], "content": other if r.random() < 0.7 else "this is [not toml"})
+        hc["warm"] = warm
+    return hc
 
 
 def file_nodes(case):
@@ -681,6 +700,10 @@ def run(run_):
     # a file on which ParseData itself panics (C09's business) is, for this property, a bad file like any other: the model treats it as
     # "does not parse" and LoadDeviceConfigs must still isolate it (a crash of the whole load is reported by the load monitor)
     excluded = 0
+    acc = sum(1 for r in results for v in r["verdicts"] if v.get("ok"))
+    tot = sum(len(r["verdicts"]) for r in results)
+    if tot and acc * 4 < tot:
+        raise CheckError("only %d of %d generated files are accepted by the real ParseData: the generator's valid text is stale" % (acc, tot))
     ev = evaluate(cases, results)
     report(run_, cases, results, ev)
 
@@ -767,6 +790,10 @@ def run(run_):
                              "(covers the 16 x 2 classes x 2 x 4 = 256 grid of the quantifier)" % len(grid_keys),
         "grid_trees": len(grid_keys),
         "trees_excluded_because_ParseData_panicked": excluded,
+        # how many of the generated files the REAL parser accepts (a drop here means the generator's "valid" text went stale)
+        "files_accepted_by_ParseData": sum(1 for r in results for v in r["verdicts"] if v.get("ok")),
+        "files_rejected_by_ParseData": sum(1 for r in results for v in r["verdicts"] if not v.get("ok")),
+        "warm_reload_trees": sum(1 for c in cases if c.get("warm")),
         "features": feats,
         "distribution": {"entries_generated": dict(sorted(g.kinds.items())), "load_outcomes_observed": outcomes,
                          "findconfig_answers_by_rank": ranks,
